@@ -239,6 +239,11 @@ func (g *graphMemoizer) Objects(ctx context.Context, s *node.Node, p *predicate.
 	for o := range c {
 		select {
 		case <-ctx.Done():
+			// Let the wrapped lookup finish: it holds its graph's lock while it sends.
+			go func() {
+				for range c {
+				}
+			}()
 			return errors.New("context cancelled")
 		case objs <- o:
 			// memoize the object.
@@ -314,6 +319,11 @@ func (g *graphMemoizer) Subjects(ctx context.Context, p *predicate.Predicate, o 
 	for s := range c {
 		select {
 		case <-ctx.Done():
+			// Let the wrapped lookup finish: it holds its graph's lock while it sends.
+			go func() {
+				for range c {
+				}
+			}()
 			return errors.New("context cancelled")
 		case subs <- s:
 			// memoize the object.
@@ -379,6 +389,11 @@ func (g *graphMemoizer) PredicatesForSubject(ctx context.Context, s *node.Node, 
 	for p := range c {
 		select {
 		case <-ctx.Done():
+			// Let the wrapped lookup finish: it holds its graph's lock while it sends.
+			go func() {
+				for range c {
+				}
+			}()
 			return errors.New("context cancelled")
 		case prds <- p:
 			// memoize the object.
@@ -444,6 +459,11 @@ func (g *graphMemoizer) PredicatesForObject(ctx context.Context, o *triple.Objec
 	for p := range c {
 		select {
 		case <-ctx.Done():
+			// Let the wrapped lookup finish: it holds its graph's lock while it sends.
+			go func() {
+				for range c {
+				}
+			}()
 			return errors.New("context cancelled")
 		case prds <- p:
 			// memoize the object.
@@ -509,6 +529,11 @@ func (g *graphMemoizer) PredicatesForSubjectAndObject(ctx context.Context, s *no
 	for p := range c {
 		select {
 		case <-ctx.Done():
+			// Let the wrapped lookup finish: it holds its graph's lock while it sends.
+			go func() {
+				for range c {
+				}
+			}()
 			return errors.New("context cancelled")
 		case prds <- p:
 			// memoize the object.
@@ -574,6 +599,11 @@ func (g *graphMemoizer) TriplesForSubject(ctx context.Context, s *node.Node, lo 
 	for t := range c {
 		select {
 		case <-ctx.Done():
+			// Let the wrapped lookup finish: it holds its graph's lock while it sends.
+			go func() {
+				for range c {
+				}
+			}()
 			return errors.New("context cancelled")
 		case trpls <- t:
 			// memoize the object.
@@ -639,6 +669,11 @@ func (g *graphMemoizer) TriplesForPredicate(ctx context.Context, p *predicate.Pr
 	for t := range c {
 		select {
 		case <-ctx.Done():
+			// Let the wrapped lookup finish: it holds its graph's lock while it sends.
+			go func() {
+				for range c {
+				}
+			}()
 			return errors.New("context cancelled")
 		case trpls <- t:
 			// memoize the object.
@@ -704,6 +739,11 @@ func (g *graphMemoizer) TriplesForObject(ctx context.Context, o *triple.Object, 
 	for t := range c {
 		select {
 		case <-ctx.Done():
+			// Let the wrapped lookup finish: it holds its graph's lock while it sends.
+			go func() {
+				for range c {
+				}
+			}()
 			return errors.New("context cancelled")
 		case trpls <- t:
 			// memoize the object.
@@ -769,6 +809,11 @@ func (g *graphMemoizer) TriplesForSubjectAndPredicate(ctx context.Context, s *no
 	for t := range c {
 		select {
 		case <-ctx.Done():
+			// Let the wrapped lookup finish: it holds its graph's lock while it sends.
+			go func() {
+				for range c {
+				}
+			}()
 			return errors.New("context cancelled")
 		case trpls <- t:
 			// memoize the object.
@@ -834,6 +879,11 @@ func (g *graphMemoizer) TriplesForPredicateAndObject(ctx context.Context, p *pre
 	for t := range c {
 		select {
 		case <-ctx.Done():
+			// Let the wrapped lookup finish: it holds its graph's lock while it sends.
+			go func() {
+				for range c {
+				}
+			}()
 			return errors.New("context cancelled")
 		case trpls <- t:
 			// memoize the object.
@@ -919,6 +969,11 @@ func (g *graphMemoizer) Triples(ctx context.Context, lo *storage.LookupOptions, 
 	for t := range c {
 		select {
 		case <-ctx.Done():
+			// Let the wrapped lookup finish: it holds its graph's lock while it sends.
+			go func() {
+				for range c {
+				}
+			}()
 			return errors.New("context cancelled")
 		case trpls <- t:
 			// memoize the object.
